@@ -9,6 +9,9 @@ trace tie  : the real analog_tjm_1 / analog_tjm_2 without scheduled jumps, n = 2
              MCWF through `simulator.run` (expm_arnoldi, Generator.random, every `measure`);
              Lindblad through `simulator.run` (which `solve_ivp` state ends up in which returned column).
 spec tie   : `solve_ivp(t_eval=times)` returns exactly the requested points in order.
+extension  : kinds `st-*` (module C15_storage.py): the result-storage layer — `Observable.initialize`, `trajectories` /
+             `results` / `times`, `aggregate_trajectories`, `aggregate_measurements`, and allocate -> fill -> reduce of the three
+             front-ends through the real `simulator.run` with shape-preserving sentinel back-ends — vs `Model.Storage`.
 oracle     : for every solver x sample_timesteps on a 2-site chain without noise: the grid starts at 0, advances by dt,
              ends at T and has k+1 points; each observable has one entry per grid point (one entry when sampling is
              off) and entry j equals the exact dense value at time j*dt (the single entry: at T).
@@ -22,6 +25,7 @@ import numpy as np
 
 import implbase as ib
 import pipeline_common as pc
+import C15_storage as st  # extension: the result-storage layer vs Model.Storage (requests `st…` of driver Pipeline)
 
 OFFENDERS = [(0.2, 0.1), (0.3, 0.1), (0.7, 0.1), (1.1, 0.1), (0.5, 0.2), (0.6, 0.2), (0.9, 0.3), (1.0, 0.2), (0.1, 0.1),
              (2.3, 0.1), (0.35, 0.05), (0.15, 0.05), (4.35, 0.01), (1.0, 0.1), (10.0, 0.1), (0.06, 0.02), (0.57, 0.01),
@@ -53,10 +57,14 @@ def gen(rng, tier):
     for solver, order in (("TJM", 1), ("TJM", 2), ("MCWF", 1), ("Lindblad", 1)):
         for s in (True, False):
             yield {"kind": "solver", "sub": rng.randrange(1 << 30), "solver": solver, "order": order, "samp": s}
+    # extension (result storage): its own generator state, so the seeded cases above/below are what they were before
+    st_rng = random.Random(f"storage:{rng.getstate()[1][:6]}:{tier}")
+    yield from st.gen_storage(st_rng, tier, part="head")
     plan = ["grid"] * n_grid + ["trace"] * n_trace + ["solver"] * n_solver + ["solver-trace"] * n_st + ["arange"] * 60
     rng.shuffle(plan)
     for k in plan:
         yield {"kind": k, "sub": rng.randrange(1 << 30)}
+    yield from st.gen_storage(st_rng, tier, part="tail")
 
 
 def draw_pair(rng):
@@ -210,13 +218,15 @@ SPEC = {"n": 0, "bad": 0, "detail": ""}
 
 
 # ------------------------------------------------------------------------------------------------ solver oracle
-def _solver_child(solver, order, T, dt, samp, vecs, Jc, g):
+def _solver_child(solver, order, T, dt, samp, vecs, Jc, g, bug=False):
     L = len(vecs)
     mps, _ = pc.product_state(vecs)
     H = pc.MPO.ising(L, Jc, g)
     obs, _ = pc.all_site_observables(L)
     sp = pc.AnalogSimParams(observables=obs, elapsed_time=T, dt=dt, num_traj=1, order=order, sample_timesteps=samp,
                             show_progress=False, threshold=1e-12 if solver == "TJM" else 1e-10, max_bond_dim=64, solver=solver)
+    if bug:   # the BUG integrator (honoured by the order-2 pipeline); exact on two sites
+        sp.evolution_mode = pc.EvolutionMode.BUG
     pc.simulator.run(mps, H, sp, None, parallel=False)
     return ([np.asarray(o.results, dtype=float).tolist() for o in obs], [float(t) for t in sp.times],
             [np.asarray(o.times, dtype=float).reshape(-1).tolist() for o in obs])
@@ -240,8 +250,9 @@ def run_solver(inp):
     L = 2
     Jc, g = rng.choice([1.0, 0.6]), rng.choice([0.7, 1.1])
     vecs = pc.site_vecs(rng, L)
-    got = pc.guarded(_solver_child, (solver, order, T, dt, samp, vecs, Jc, g), timeout=120)
-    label = f"solver={solver} order={order} elapsed_time={T!r} dt={dt!r} sample_timesteps={samp}"
+    bug = bool(inp.get("bug", solver == "TJM" and order == 2 and rng.random() < 0.4))
+    got = pc.guarded(_solver_child, (solver, order, T, dt, samp, vecs, Jc, g, bug), timeout=120)
+    label = f"solver={solver} order={order} elapsed_time={T!r} dt={dt!r} sample_timesteps={samp} evolution_mode={'BUG' if bug else 'TDVP'}"
     if got[0] != "ok":
         return {"req": None, "impl": None, "kind": "solver", "sig": f"solver-crash:{solver}:{order}:{samp}",
                 "oracle": {"ok": False, "detail": f"simulator.run {got[0]}: {got[1] if len(got) > 1 else ''} [{label}]"}}
@@ -334,6 +345,8 @@ def _run(inp):
         return run_solver_trace(inp)
     if k == "solver":
         return run_solver(inp)
+    if k in st.RUNNERS:
+        return st.run_storage(inp)
     raise ValueError(k)
 
 
@@ -352,10 +365,18 @@ if __name__ == "__main__":
                  "n = 2..7 x noise model none/empty/processes x TDVP/BUG, MCWF and Lindblad through simulator.run; solver "
                  "oracle: TJM 1/2, MCWF, Lindblad x sample_timesteps x k = 1..12.  distinct = distinct (T, dt) bit patterns "
                  "resp. (backend, n, sample, noise, mode) signatures; non-trivial = more than 2 grid points / the observable "
-                 "moves by > 1e-3 over the run",
+                 "moves by > 1e-3 over the run.  "
+                 "storage (C15_storage.py): Observable.initialize for analog / strong / weak x sampling x every observable kind x "
+                 "num_traj 0..7 x grids of 1..41 points incl. non-multiples of dt and reused observables; aggregate_trajectories on "
+                 "random dyadic tables (0..8 trajectories x 1..7 columns, float64 and complex128, schmidt concatenation); "
+                 "aggregate_measurements on slot lists (all dicts / dict + Nones / one dict / empty dicts / None first / none); real "
+                 "simulator.run with shape-preserving sentinel back-ends (TJM 1/2, MCWF, Lindblad, digital strong, weak; serial and "
+                 "pool branch)",
             trusted_base=["numpy/scipy dense evolution (expm) as the reference of the solver oracle",
                           "Lean Float is IEEE binary64 with correctly rounded + - * / (compared bit for bit with numpy here)",
                           "scipy solve_ivp contract (checked: spec tie)"],
             assumptions=["no overflow/underflow/subnormals in the grid computation (pairs drawn from 1e-4 <= dt <= 2.5, k <= 250001)",
-                         "column bookkeeping of MCWF/Lindblad is observed through spy observables (the k-th evaluation writes k)"],
+                         "column bookkeeping of MCWF/Lindblad is observed through spy observables (the k-th evaluation writes k)",
+                         "storage ties: table entries are small dyadic rationals (sums exact in binary64, one rounding in the division); "
+                         "in st-run the back-end's values are replaced by sentinels of the shape the real back-end returned"],
             spec=spec, budget_s={"quick": 100, "thorough": 1100, "search": 200}.get(pc.tier_from_argv(), 100))
